@@ -6,6 +6,7 @@ package nd
 
 import (
 	"encoding/json"
+	"reflect"
 	"fmt"
 	"math/big"
 	"os"
@@ -158,6 +159,69 @@ func Epoch() {}
 
 // AllocBound tells the engine up to which length symbolic allocations are case-split.
 func AllocBound(n int) {}
+
+// SharedMutable counts the mutable memory locations (pointer targets, slice elements, maps) reachable from both a and b.
+// Zero-size pointees are ignored.
+func SharedMutable(a, b interface{}) int {
+	sa := map[uintptr]bool{}
+	collect(reflect.ValueOf(a), sa, map[uintptr]bool{})
+	sb := map[uintptr]bool{}
+	collect(reflect.ValueOf(b), sb, map[uintptr]bool{})
+	n := 0
+	for k := range sb {
+		if sa[k] {
+			n++
+		}
+	}
+	return n
+}
+
+func collect(v reflect.Value, out map[uintptr]bool, seen map[uintptr]bool) {
+	switch v.Kind() {
+	case reflect.Ptr:
+		if v.IsNil() {
+			return
+		}
+		p := v.Pointer()
+		if seen[p] && v.Type().Elem().Size() != 0 {
+			return
+		}
+		seen[p] = true
+		if v.Type().Elem().Size() != 0 {
+			out[p] = true
+		}
+		collect(v.Elem(), out, seen)
+	case reflect.Slice:
+		for i := 0; i < v.Len(); i++ {
+			e := v.Index(i)
+			if e.Type().Size() != 0 {
+				out[e.Addr().Pointer()] = true
+			}
+			collect(e, out, seen)
+		}
+	case reflect.Map:
+		if v.IsNil() {
+			return
+		}
+		out[v.Pointer()] = true
+		it := v.MapRange()
+		for it.Next() {
+			collect(it.Value(), out, seen)
+		}
+	case reflect.Struct:
+		for i := 0; i < v.NumField(); i++ {
+			collect(v.Field(i), out, seen)
+		}
+	case reflect.Array:
+		for i := 0; i < v.Len(); i++ {
+			collect(v.Index(i), out, seen)
+		}
+	case reflect.Interface:
+		if !v.IsNil() {
+			collect(v.Elem(), out, seen)
+		}
+	}
+}
 
 // ExportPC hands the current path condition to the check's post-processing under the given name (engine only).
 func ExportPC(name string) {}
